@@ -156,7 +156,8 @@ pub fn check(cx: &Cx, rep: &mut Report) {
             }
             // registered twice under the same type => delivered twice; count registrations
             let regs = es.iter().filter(|x| x.0 == *actor && x.1 == *ctag && x.2 < e.stamp && x.3 == ty).count();
-            let gone_before = child.first_term_cause().map(|c| c < e.stamp).unwrap_or(false) || child.failed();
+            // (a stream-attached child ends with its stream whenever that is: no drain is promised for that, see C04/C13)
+            let gone_before = child.first_term_cause().map(|c| c < e.stamp).unwrap_or(false) || child.failed() || child.stream_end.is_some();
             rep.premise("C16.R3.broadcast_exactly_once");
             nontrivial = true;
             let final_ok = !cx.mt || matches!(child.t_final(), Some((_, Some(_))));
@@ -178,7 +179,7 @@ pub fn check(cx: &Cx, rep: &mut Report) {
         let Some(child) = by_tag.get(&ctag) else { continue };
         let expect: usize = es.iter().filter(|x| x.1 == ctag && x.3 == 2).map(|x| unit_bcasts.iter().filter(|b| b.0 == x.0 && b.1 > x.2).count()).sum();
         let got = ix.actors[&child.task].timeline.iter().filter(|t| matches!(t, TL::Inv(j) if ix.invs[*j].mk == Mk::Unit)).count();
-        let gone = child.failed() || child.first_term_cause().map(|c| unit_bcasts.iter().any(|b| b.1 > c)).unwrap_or(false);
+        let gone = child.failed() || child.stream_end.is_some() || child.first_term_cause().map(|c| unit_bcasts.iter().any(|b| b.1 > c)).unwrap_or(false);
         if expect > 0 || got > 0 {
             rep.premise("C16.R3.unit_broadcast_count");
             let final_ok = !cx.mt || matches!(child.t_final(), Some((_, Some(_))));
